@@ -25,6 +25,9 @@ type Case struct {
 	// Allowed per the reference tables: "yes" | "no" | "?" (no table available: only accepted => executes is checked)
 	Allowed string `json:"allowed"`
 	Class   string `json:"class"` // class-key stem
+	// Before: a whole subroutine printed in front of the one under test (e.g. a legal use of the same variable in another scope:
+	// what one subroutine established must not decide what the next one may do)
+	Before string `json:"before,omitempty"`
 }
 
 const decls = `backend be1 { .host = "example.com"; .port = "80"; }
@@ -39,6 +42,7 @@ director dr1 random { { .backend = be1; .weight = 1; } }
 func program(c Case) (src string, useLine int) {
 	var b strings.Builder
 	b.WriteString(c.Decls)
+	b.WriteString(c.Before)
 	name := "custom_sub"
 	if len(c.Scopes) == 1 {
 		name = "vcl_" + c.Scopes[0]
@@ -140,6 +144,17 @@ func genVariables(emit func(Case)) {
 				emit(Case{Kind: "variable", Cell: fmt.Sprintf("get %s in %v", v.Name, ss), Scopes: ss, Decls: decls,
 					Prelude: fmt.Sprintf("  declare local var.zz %s;\n", lt), Use: fmt.Sprintf("set var.zz = %s;", name),
 					Allowed: yn(al), Class: "variable get " + v.Name})
+				// the same read in a scope that does not allow it, after a subroutine of an allowed scope has read (and, where
+				// possible, set) the variable
+				if !al && len(ss) == 1 && len(v.On) > 0 {
+					first := strings.ToLower(v.On[0])
+					if first != ss[0] {
+						before := fmt.Sprintf("sub vcl_%s {\n  #FASTLY %s\n  declare local var.yy %s;\n  set var.yy = %s;\n}\n", first, first, lt, name)
+						emit(Case{Kind: "variable", Cell: fmt.Sprintf("get %s in %v after a read in %s", v.Name, ss, first), Scopes: ss, Decls: decls, Before: before,
+							Prelude: fmt.Sprintf("  declare local var.zz %s;\n", lt), Use: fmt.Sprintf("set var.zz = %s;", name),
+							Allowed: "no", Class: "variable get " + v.Name})
+					}
+				}
 			}
 			// set
 			if lit, ok := literalOf[v.Set]; ok || v.Set == "" {
